@@ -134,6 +134,8 @@ def m_guards(ctx, case):
                 body = bits.setfield(body, n - 29, 28, 32, 28)  # TC28 inside DF17/18 (ME starts at frame bit 33 = body bit 28)
             f = bits.with_pi((df << (n - 29)) | body, n, rng.getrandbits(24))
             hx = "%0*X" % (n // 4, f)
+            if rep % 5 == 4:
+                hx = hx.lower()
             tc28 = n == 112 and df in (17, 18) and bits.field(f, 112, 33, 37) == 28
             for nm, fn, dfs in table:
                 r = call(fn, hx)
